@@ -13,7 +13,7 @@ import (
 
 // C18 — incremental evaluation equals whole-program evaluation.
 //
-// Space: all sequences of <=6 (7) top-level statements from a template
+// Space: all sequences of <=5 (6) top-level statements from a template
 // alphabet that pass a def-before-use filter, x ALL 2^(n-1) ways of cutting
 // the sequence into consecutive chunks fed to one VM through successive Eval
 // calls sharing one WithEvalImports map.  Oracle: the same text evaluated in
@@ -50,13 +50,29 @@ var c18tpls = []c18tpl{
 	{src: `s = append(s, x)`, needs: []string{"s", "x"}},
 	{src: "for _, v := range s {\n\tx += v\n}", needs: []string{"s", "x"}, block: true},
 	{src: `t.n = t.M() + x`, needs: []string{"t", "M", "x"}},
+	// nested declaring blocks next to a global of the same name as the loop variable
+	{src: `i := 100`, gives: []string{"i"}},
+	{src: "for i := 0; i < 3; i++ {\n\tif i > 0 {\n\t\tw := i * 2\n\t\ty += w\n\t}\n}", needs: []string{"y"}, block: true},
+	{src: "if x > 0 {\n\tx := 1\n\tif x > 0 {\n\t\tx := 2\n\t\ty += x\n\t}\n\ty += x\n}", needs: []string{"x", "y"}, block: true},
+	{src: `y += i`, needs: []string{"y", "i"}},
+	// script packages with state: a later chunk that imports ext loads util a second time
+	{src: `import "util"`, gives: []string{"util"}},
+	{src: `import "ext"`, gives: []string{"ext"}},
+	{src: `util.Set(x)`, needs: []string{"util", "x"}},
+	{src: `ext.Bump()`, needs: []string{"ext"}},
+	{src: `util.Count() + ext.Twice(2)`, needs: []string{"util", "ext"}, final: true},
 	{src: `x + y`, needs: []string{"x", "y"}, final: true},
 	{src: `f(2) + c`, needs: []string{"f", "c"}, final: true},
 	{src: `t.M()`, needs: []string{"t", "M"}, final: true},
 	{src: `len(s) + z`, needs: []string{"s", "z"}, final: true},
 }
 
-var c18globals = []string{"x", "y", "z", "c", "s"}
+var c18globals = []string{"x", "y", "z", "c", "s", "i"}
+
+var c18fs = goat.FS(map[string]string{
+	"util/util.go": "package util\n\nvar last any\nvar count int\n\nfunc Set(v int) {\n\tlast = v\n\tcount++\n}\n\nfunc Last() any {\n\treturn last\n}\n\nfunc Count() int {\n\treturn count\n}\n",
+	"ext/ext.go":   "package ext\n\nimport \"util\"\n\nfunc Bump() {\n\tutil.Set(99)\n}\n\nfunc Twice(a int) int {\n\treturn a * 2\n}\n",
+})
 
 // c18valid applies the def-before-use filter.
 func c18valid(seq []int) bool {
@@ -111,6 +127,10 @@ func c18observe(m *goat.M, last goat.Result, out string, failed bool) c18obs {
 	if t := m.VM.Get("main.t"); !t.IsNil() {
 		g = append(g, "t="+t.String())
 	}
+	for _, n := range []string{"util.last", "util.count"} {
+		v := m.VM.Get(n)
+		g = append(g, n+"="+v.String()+":"+m.TypeOf(v))
+	}
 	o.globs = strings.Join(g, " ")
 	return o
 }
@@ -123,7 +143,7 @@ func c18eval(chunks []string) c18obs {
 	var last goat.Result
 	out := ""
 	for _, c := range chunks {
-		last = m.Eval(nil, c, goatlang.WithEvalImports(imports))
+		last = m.Eval(c18fs, c, goatlang.WithEvalImports(imports))
 		out += last.Out
 		if last.Failed() {
 			return c18observe(m, last, out, true)
@@ -152,9 +172,9 @@ type c18case struct {
 }
 
 func c18run(r *report.Run) {
-	maxLen := 6
+	maxLen := 5
 	if r.Tier == "thorough" {
-		maxLen = 7
+		maxLen = 6
 	}
 	r.Rule(fmt.Sprintf("all sequences of <=%d top-level statements over %d templates (imports, :=, var, const, assignments, ++, if/for/switch/range blocks, function and method definitions and a redefinition, type, struct literal, calls, four final expressions) that pass the def-before-use filter, x all 2^(n-1) chunkings; non-trivial = chunking with >=2 chunks of a sequence that defines and later uses a name across a cut", maxLen, len(c18tpls)))
 	r.Assume("the one-call evaluation of the same text on a fresh VM is the reference (differential, no expected values)", "sequences that the def-before-use filter accepts must also evaluate successfully as a whole")
